@@ -17,6 +17,8 @@ Round 7: move must reject a batch that contains its own anchor before it touches
 Round 8: _attach/_detach as an explicit work list; the root attach through the local the root task was built in; a filtered
 two-part rebuild of the shared list must be a partition; _ChildrenList.remove must not have a path that cuts the shared list itself;
 id_precheck_complete (c05.intersection) and owners_compared_by_identity run under C11.
+Round 9: children_assignment_atomic (shared with C05) and refusals_compare_objects (the dependency guard must not decide by
+task id) run under C11; the owner field of the children facade may have any private name.
 Not decided: a memoised all_children whose invalidation looks complete (UNDECIDED).
 """
 from __future__ import annotations
@@ -134,6 +136,17 @@ def check(ctx):
                "the same-WBS guards compare owners with `!=` / `==`: WBS must not define __eq__ / __ne__, or a member of another but "
                "equal-looking WBS passes them (shared rule with C05)", floor=1)
     ctx.guarded(o, lambda o: __import__('rules.c05', fromlist=['owner_identity']).owner_identity(ctx, o))
+
+    o = ctx.ob('children_assignment_atomic', 'R3',
+               "children setter: everything the per-child parent assignment can reject is rejected for every element before the old "
+               "children are released (shared rule with C05): an assignment refused midway leaves the kept children outside X.tasks while "
+               "they report X", floor=3)
+    ctx.guarded(o, lambda o: __import__('rules.c05', fromlist=['children_atomic']).children_atomic(ctx, o, eff))
+
+    o = ctx.ob('refusals_compare_objects', 'R2',
+               "the dependency guard that can refuse an adoption compares task OBJECTS: ids are unique per WBS only, a task removed from "
+               "one WBS must stay attachable to another whose numbering overlaps", floor=1)
+    ctx.guarded(o, lambda o: refusals_by_object(ctx, o))
 
     o = ctx.ob('removal_paths_delegate', 'R8',
                "list removal, remove_all, WBS.remove / remove_all and roots assignment all end in a children assignment on the owning task", floor=4)
@@ -722,19 +735,24 @@ def _snapshot_helper(prog, f, v, s) -> str:
     return 'ok'
 
 
+def _req(*a, **k):
+    from .c05 import require
+    return require(*a, **k)
+
+
 def owner_guards(ctx, o, eff):
     prog = ctx.prog
     from .c05 import _reaches_under
     A, N, AND = T.F_atom, T.F_not, T.F_and
     f = prog.func(SETTERS['parent'])
     writes = relation_write_nodes(ctx, f, eff)
-    T.require(ctx, o, f, "attached task + parent of another owner", AND(N(A('wbsnone(self)')), N(A('none(arg)')), A('wbsneq(arg,self)')),
+    _req(ctx, o, f, "attached task + parent of another owner", AND(N(A('wbsnone(self)')), N(A('none(arg)')), A('wbsneq(arg,self)')),
               writes, eff, False, mode_filter=_reaches_under)
     f = prog.func(SETTERS['children'])
     writes = relation_write_nodes(ctx, f, eff)
-    T.require(ctx, o, f, "detached receiver + attached child", AND(A('wbsnone(self)'), N(A('wbsnone(elem)'))), writes, eff, True,
+    _req(ctx, o, f, "detached receiver + attached child", AND(A('wbsnone(self)'), N(A('wbsnone(elem)'))), writes, eff, True,
               mode_filter=_reaches_under)
-    T.require(ctx, o, f, "attached receiver + child of another owner",
+    _req(ctx, o, f, "attached receiver + child of another owner",
               AND(N(A('wbsnone(self)')), N(A('wbsnone(elem)')), A('wbsneq(elem,self)')), writes, eff, True, mode_filter=_reaches_under)
 
 
@@ -796,6 +814,24 @@ def move_anchor(ctx, o, eff):
     o.refute(f, f.node, 'anchor in batch', "move does not reject a batch of tasks that contains its own before/after anchor before it changes the "
              "shared list" + (f" (it only tests `{ident[0]}`: the whole argument against the anchor by identity)" if ident else "") +
              ": the loop takes the anchor out, index(anchor) fails and the task is left outside the children list while it reports the WBS")
+
+
+def refusals_by_object(ctx, o):
+    prog = ctx.prog
+    f = prog.func('task._has_dependency_with_parents')
+    ex = Expander(prog, f, ctx.typer, inline=False)
+    tests = [n for n in ast.walk(f.node) if isinstance(n, ast.Compare) and len(n.ops) == 1 and isinstance(n.ops[0], (ast.In, ast.NotIn, ast.Eq, ast.NotEq))]
+    by_id = [n for n in tests if isinstance(n.left, ast.Attribute) and n.left.attr == 'id' or
+             (isinstance(n.comparators[0], ast.Attribute) and n.comparators[0].attr == 'id')]
+    if by_id:
+        n = by_id[0]
+        o.refute(f, n, n, f"{f.name} decides `{src(n)[:50]}` by task id: a linked task outside the tree that merely shares an id with the new "
+                          f"parent or one of its ancestors makes the adoption be refused (a task removed from one WBS can no longer be "
+                          f"attached to another whose numbering overlaps)")
+    elif tests:
+        o.site(f, tests[0], "links are compared with the parent chain as objects")
+    else:
+        o.undecided(f, f.node, f.name, "no membership test found in the dependency guard")
 
 
 def root_fixed(ctx, o, eff):
